@@ -1,6 +1,6 @@
 (* C05: the text of a note / tonality / chord evaluates back to the object. *)
 From ML Require Import Model.Types gen.Tables Model.Pitch Model.Ext Model.Ton Model.Code Model.Text.
-From ML Require Import Proofs.ExtProofs.
+From ML Require Import Proofs.ExtProofs Model.Tags Proofs.TagsProofs.
 From Coq Require Import QArith Lia.
 Open Scope Z_scope.
 Open Scope list_scope.
@@ -211,7 +211,8 @@ Proof.
   destruct Amp as (m7 & H7 & Same7 & Amp7). rewrite H7. cbn [obind].
   (* 8: tags *)
   assert (T7 : ftags m7 = []) by (injection Same7 as _ _ _ _ _ _ _ T; rewrite T; exact Bt).
-  rewrite (seg_tags m7 (ftags n) T7 Htags).
+  assert (Hsd : NoDup (sort_tags (ftags n))) by (eapply Permutation.Permutation_NoDup; [apply sort_perm|exact Htags]).
+  rewrite (seg_tags m7 (sort_tags (ftags n)) T7 Hsd).
   eexists. split; [reflexivity|].
   (* the fields *)
   injection Same7 as S1 S2 S3 S4 S5 S6 S7 S8.
@@ -221,7 +222,7 @@ Proof.
   rewrite Bk, Bd, Bv, Bo, Bm, Ba.
   assert (Kr : kind_eqb (fk n) (fk n) = true) by (destruct (fk n); reflexivity).
   assert (Dr : dir_eqb (fd n) (fd n) = true) by (destruct (fd n); reflexivity).
-  assert (Tr : list_eqb String.eqb (ftags n) (ftags n) = true) by apply str_list_refl.
+  assert (Tr : list_eqb String.eqb (sort_tags (ftags n)) (sort_tags (sort_tags (ftags n))) = true) by (rewrite sort_tags_idem; apply str_list_refl).
   rewrite Kr, Dr, Tr. cbn [andb].
   (* value, octave, duration, mode, accidental, dynamics *)
   assert (V : (fv n =? match printed_val n with Some x => x | None => 0 end) = true).
